@@ -11,7 +11,7 @@ use crate::traffic::{self, CoverageMonitor, Plan};
 pub static INFO: PropInfo = PropInfo {
     id: "C02",
     level: "exploration",
-    rule: "one evaluation = one simulated session as in C01 with traffic on ReliableUnordered channels and application drains placed after every arrival / every tick / every n ticks / at random. Oracle: every obtained message must identify (payload header or content) one not-yet-obtained submission of that channel; the harness decodes every datagram delivered to a connected receiver with the crate's decoder, and a message all of whose packets arrived must be returned by the next full drain; full delivery at the deadline. Non-trivial = faults occurred AND a retransmission happened AND everything was obtained; distinct = distinct event-log fingerprints.",
+    rule: "one evaluation = one simulated session as in C01 with traffic on ReliableUnordered channels and application drains placed after every arrival / every tick / every n ticks / at random. Oracle: every obtained message must identify (payload header or content) one not-yet-obtained submission of that channel; the harness decodes every datagram delivered to a connected receiver with the crate's decoder, and a message all of whose packets arrived must be returned by the next full drain; full delivery at the deadline. Non-trivial = faults occurred AND a retransmission happened AND everything was obtained; distinct = distinct event-log fingerprints. A session that the library itself ends (any DisconnectReason) although every submission stayed within the channel budgets strands its outstanding messages and is reported as C02/unordered-liveness/session-ended/<reason> (C02 promises delivery without a proviso; on the unchanged tree no such run occurs).",
     assumptions: &[
         "bounded liveness only (same deadline formula as C01)",
         "wire message ids are mapped to submissions by content (learned from the sender's own packets), never assumed",
@@ -78,6 +78,25 @@ pub fn one_run(ctx: &Ctx, out: &mut Outcome, run_seed: u64) {
     let (s, sim) = traffic::run(ctx, out, cfg, &plan, run_seed, &mut mons);
     for p in profile_names {
         out.count(&p);
+    }
+    // C02 promises delivery without a proviso: an honest session whose submissions stay within the channel budgets
+    // (the driver's window) has no reason to end, so a disconnect decided by the library strands its messages
+    if s.any_disconnected {
+        for conn in 0..sim.cfg.n_clients {
+            for side in [crate::rsim::Side::Client, crate::rsim::Side::Server] {
+                if let Some(reason) = sim.reason(conn, side) {
+                    let class = format!("{:?}", reason).split(|c: char| !c.is_alphanumeric()).next().unwrap_or("?").to_string();
+                    let rv = sim.replay_value(&ctx.prop, &ctx.engine, "every submitted message is obtained within a bounded number of ticks", serde_json::json!({"conn": conn, "side": format!("{:?}", side), "reason": format!("{:?}", reason)}));
+                    out.violation(
+                        ctx,
+                        &format!("C02/unordered-liveness/session-ended/{class}"),
+                        "once the network delivers again every submitted message is obtained within a bounded number of ticks",
+                        format!("conn {} {:?} disconnected itself with {:?} although every submission was within the channel budgets; the messages still outstanding are never obtained", conn, side, reason),
+                        rv,
+                    );
+                }
+            }
+        }
     }
     let faults = s.dropped + s.duplicated + s.reordered > 0;
     let nontrivial = faults && s.retransmissions > 0 && s.all_obtained && !s.any_disconnected;
